@@ -49,6 +49,8 @@ func (W) TableName() string { return "ws" }
 type WS struct {
 	W
 	DeletedAt gorm.DeletedAt
+	CreatedMs int64 `gorm:"autoCreateTime:milli"` // tracked times kept as integers: what is bound is a number, not a time
+	UpdatedS  int64 `gorm:"autoUpdateTime"`
 }
 
 func (WS) TableName() string { return "wss" }
@@ -254,7 +256,7 @@ func progJ(p Prog) hx.M {
 		}
 		return out
 	}
-	return hx.M{"parts": parts, "fin": hx.M{"kind": p.Fin.Kind, "pay": pay(p.Fin.Pay), "pay2": pay(p.Fin.Pay2)}, "soft": p.Soft, "now": idOf(FixNow)}
+	return hx.M{"parts": parts, "fin": hx.M{"kind": p.Fin.Kind, "pay": pay(p.Fin.Pay), "pay2": pay(p.Fin.Pay2)}, "soft": p.Soft, "now": idOf(FixNow), "nowms": idOf(FixNow.UnixMilli()), "nows": idOf(FixNow.Unix())}
 }
 
 // ---- rendering ---------------------------------------------------------------------------
@@ -506,6 +508,14 @@ func Run(base *gorm.DB, p Prog) *gorm.DB {
 	case "update_returning":
 		out := sl()
 		return tx.Model(out).Clauses(clause.Returning{Columns: []clause.Column{{Name: "id"}}}).Update(p.Fin.Pay[0].Col, p.Fin.Pay[0].V.Go())
+	case "row":
+		// a single-row read finished by Row() (only the driver silence of the dry run is judged)
+		r := tx.Model(mdl()).Select("c1").Row()
+		if r != nil {
+			var v int64
+			_ = r.Scan(&v)
+		}
+		return tx.Session(&gorm.Session{NewDB: true})
 	case "save":
 		// a record that has its key: Save updates it (through a session gorm derives itself)
 		w := wOf(p.Fin.Pay)
@@ -793,7 +803,7 @@ func (g *gen) pay(n int) []Pair {
 func RandProg(r *rand.Rand) Prog {
 	g := &gen{r: r}
 	var p Prog
-	kinds := []string{"find", "first", "count", "pluck", "update", "updates", "updates_map", "delete", "delete_returning", "update_returning", "create", "create_slice", "create_map", "upsert", "raw", "exec", "rows", "save", "create_batches"}
+	kinds := []string{"find", "first", "count", "pluck", "update", "updates", "updates_map", "delete", "delete_returning", "update_returning", "create", "create_slice", "create_map", "upsert", "raw", "exec", "rows", "save", "create_batches", "row"}
 	p.Fin.Kind = kinds[r.Intn(len(kinds))]
 	p.Soft = r.Intn(3) == 0
 	switch p.Fin.Kind {
